@@ -272,6 +272,13 @@ def finish(ctx, matcher=None):
         print(f"KNOWN-FINDING: property={ctx.pid} {k['what']} (id={hid}, {n} matching case(s) this run)")
     cov = ctx.cov
     cov["known_finding_cases"] = sum(n for _, n in hits.values())
+    if not cov["samples"]:
+        # a run that stopped early (a violation at the model-checking stage) still shows what it looked at
+        if ctx.violations:
+            cov["samples"].append({"kind": "violating case", "what": ctx.violations[0]["what"][:400]})
+        elif cov["tlc_runs"]:
+            cov["samples"].append({"kind": "TLC run", "run": cov["tlc_runs"][0]})
+    cov["evaluations"] = max(cov["evaluations"], len(cov["tlc_runs"]))
     wall = time.time() - ctx.t0
     ev = {
         "property_id": ctx.pid, "tier": ctx.tier, "seed": ctx.seed, "level": ctx.level,
